@@ -227,6 +227,10 @@ func init() {
 					ctx.SetBodyStream(onlyReader{bytes.NewReader(append(append([]byte(nil), body...), "EXTRA"...))}, p.size)
 				case "stream-unknown":
 					ctx.SetBodyStream(onlyReader{bytes.NewReader(body)}, -1)
+				case "stream-noreset-known": // the twin of SetBodyStream that keeps what was set before
+					ctx.Response.SetBodyStreamNoReset(onlyReader{bytes.NewReader(body)}, p.size)
+				case "stream-noreset-unknown":
+					ctx.Response.SetBodyStreamNoReset(onlyReader{bytes.NewReader(body)}, -1)
 				case "stream-limited":
 					ctx.SetBodyStream(&io.LimitedReader{R: bytes.NewReader(append(append([]byte(nil), body...), "EXTRA"...)), N: int64(p.size)}, -1)
 				case "chunkw":
@@ -316,7 +320,7 @@ func init() {
 		},
 		Gen: func(t *T) {
 			statuses := []int{200, 201, 204, 206, 301, 304, 400, 404, 500, 101, 102}
-			modes := []string{"body", "append", "stream-known", "stream-longer", "stream-unknown", "stream-limited", "none", "chunkw"}
+			modes := []string{"body", "append", "stream-known", "stream-longer", "stream-unknown", "stream-limited", "none", "chunkw", "stream-noreset-known", "stream-noreset-unknown"}
 			sizes := []int{0, 1, 5, 4095, 4096, 4097, 8191, 8192, 8193, 70000}
 			methods := []string{"GET", "HEAD", "POST"}
 			mk := func(st int, mode string, size int, method string, hdr int, script string) string {
